@@ -83,6 +83,14 @@ def header_variants(data: bytes):
     out.append(('xmldecl-latin1', decl.replace(b'UTF-8', b'ISO-8859-1') + b'\n' + doctype
                 + b'\n' + rest, None))
     out.append(('leading-blank-line', b'\n' + data, None))
+    # saved as "UTF-8 with signature": whether that is accepted is not stated, but is_lmf(),
+    # load() and add() must agree about it
+    out.append(('utf8-bom', b'\xef\xbb\xbf' + data, None))
+    out.append(('leading-space', b' ' + data, None))
+    out.append(('xmldecl-standalone', decl.replace(b'?>', b' standalone="yes"?>') + b'\n'
+                + doctype + b'\n' + rest, None))
+    out.append(('xmldecl-lowercase-encoding', decl.replace(b'UTF-8', b'utf-8') + b'\n' + doctype
+                + b'\n' + rest, None))
     out.append(('crlf', data.replace(b'\n', b'\r\n'), False))
     out.append(('doctype-other-root', decl + b'\n' + doctype.replace(b'LexicalResource', b'Foo')
                 + b'\n' + rest, True))
@@ -119,7 +127,12 @@ def structural_mutants(text: str, version: str):
         for m in each_tag(elem, 8 if elem == 'SyntacticBehaviour' else 2):
             for a in attrs:
                 tag = m.group(0)
-                new = re.sub(r'\s%s=("[^"]*"|\'[^\']*\')' % a, '', tag, count=1)
+                # the attribute itself, not text inside another attribute's value
+                new = tag
+                for am in re.finditer(r'''\s+([^\s=<>/'"]+)\s*=\s*("[^"]*"|'[^']*')''', tag):
+                    if am.group(1) == a:
+                        new = tag[:am.start()] + tag[am.end():]
+                        break
                 if new != tag:
                     out.append(('no-%s@%s' % (elem, a),
                                 text[:m.start()] + new + text[m.end():]))
@@ -240,6 +253,7 @@ def run_one(seed, tier, explicit=None):
     prof['special'] = rng.choice([0.3, 0.6, 0.9])
     prof['p_attr_special'] = 0.6
     prof['p_ext_entry_frames'] = 0.5
+    prof['p_long'] = 0.0          # (every byte offset of the file is a truncation point)
     u = explicit['universe'] if explicit else U.generate(rng, prof)
     prng = subseed(seed, 'plan')
     sim = Case(u, seed, PROP, ['installed'])
@@ -279,7 +293,8 @@ def run_one(seed, tier, explicit=None):
             if prng.random() < 0.6:
                 style = {'seed': prng.randint(0, 10 ** 6), 'shuffle_attrs': prng.random() < 0.5,
                          'cdata': prng.random() < 0.4, 'comments': prng.random() < 0.5,
-                         'charrefs': prng.random() < 0.6, 'mixed_quotes': prng.random() < 0.3}
+                         'charrefs': prng.random() < 0.6, 'mixed_quotes': prng.random() < 0.3,
+                         'loose_attrs': prng.random() < 0.3}
             if explicit:
                 quote, indent, style = explicit['quote'], explicit['indent'], \
                     explicit.get('style')
@@ -396,6 +411,12 @@ def run_one(seed, tier, explicit=None):
                 raise StopIteration
             # 0. the valid file itself (both as written and after a dump round trip)
             feed('valid', data, False, must_accept=True)
+            # the same document with ">" standing for itself inside attribute values, white
+            # space around "=" and shuffled attributes (all of it plain XML)
+            loose = dict(style or {}, seed=(style or {}).get('seed', 1) + 1, raw_gt=True,
+                         loose_attrs=True, shuffle_attrs=True, mixed_quotes=True)
+            feed('valid-loose', xmlout.resource_xml(u, tgt, quote=quote, indent=indent,
+                                                    style=loose), False, must_accept=True)
             res, exc = sim.call(wn.lmf.load, os.path.join(wd, 'm.xml'), progress_handler=None)
             if exc is not None:
                 raise Violation(PROP, 'valid-rejected', 'load() rejected a valid file',
